@@ -25,7 +25,7 @@ from ..strdom import Str, Hole, SELF, EXTSECTOR, ext, lit
 from ..dataflow import target_names, single_assign_subst, resolve_expr
 from ..loader import stmt_of
 
-TECHNIQUE = ('static analysis: backward slice of every text sink to the alias pass (the only sanitiser) over the flattened pass, branch-outcome facts for placeholder creation and unchanged returns, CFG order of the phases of Model.main, template-closure check of all framework right-hand sides over the effect traces')
+TECHNIQUE = ('static analysis: backward slice of every text sink to the alias pass (the only sanitiser) over the flattened pass, branch-outcome facts for placeholder creation and unchanged returns, CFG order of the phases of Model.main, template-closure check of all framework right-hand sides over the effect traces; separator-literal lint; branch-outcome facts for the guard of the model-level rewrite; list-position order of the step pipeline')
 EXPLANATION = (
     'Placeholders are handed out before full codes exist and only the alias pass turns them into canonical names, so every '
     'store of user-supplied equation text that later reaches the final text must be rewritten by that pass (or be unable to '
